@@ -26,7 +26,8 @@ def rel_check(prop, prefixes, fams, rels, tier, sample=None, text_rule=None, ass
             groups.setdefault((s["st"]["fam"], s["rs"]["rel"], s["rs"].get("route", "")), []).append(s)
         for g, lst in sorted(groups.items()):
             n = sample.get(g[2] or g[1], sample.get(g[0]))
-            cap = None if n is None else (n if tier == "quick" else 20 * n)      # the thorough tier takes a 20 times larger sample
+            # an int: that many in the quick tier, 20 times as many in the thorough tier; a pair (quick, thorough), None = all
+            cap = None if n is None else (n[0 if tier == "quick" else 1] if isinstance(n, tuple) else (n if tier == "quick" else 20 * n))
             if cap is not None and len(lst) > cap:
                 lst = rng.sample(lst, cap)
             keep += lst
